@@ -101,6 +101,32 @@ func c20Setup() error {
 			c20Inputs = append(c20Inputs, c20Input{name: fmt.Sprintf("built-init-%d", seed), master: b.Bytes()})
 		}
 	}
+	// init segments with AC-3 / E-AC-3 tracks over all audio coding modes, with and without LFE and dependent substreams
+	for k := 0; k < 4; k++ {
+		init := mp4.CreateEmptyInit()
+		for j := 0; j < 3; j++ {
+			init.AddEmptyTrack(48000, "audio", "und")
+			trak := init.Moov.Traks[j]
+			acmod := byte((3*k + j) % 8)
+			var err error
+			if (k+j)%2 == 0 {
+				err = trak.SetAC3Descriptor(&mp4.Dac3Box{FSCod: 0, BSID: 8, ACMod: acmod, LFEOn: byte((k + j/2) % 2), BitRateCode: 10})
+			} else {
+				sub := mp4.EC3Sub{BSID: 16, ACMod: acmod, LFEOn: byte(k % 2)}
+				if j == 1 {
+					sub.NumDepSub, sub.ChanLoc = 1, uint16(1<<uint(k+1))
+				}
+				err = trak.SetEC3Descriptor(&mp4.Dec3Box{DataRate: 192, EC3Subs: []mp4.EC3Sub{sub}})
+			}
+			if err != nil {
+				return fmt.Errorf("c20: ac-3 init: %v", err)
+			}
+		}
+		var b bytes.Buffer
+		if init.Encode(&b) == nil {
+			c20Inputs = append(c20Inputs, c20Input{name: fmt.Sprintf("ac3-modes-init-%d", k), master: b.Bytes()})
+		}
+	}
 	// small files followed by a sample group description box of a grouping type the library has no entry decoder for
 	for i, gt := range []string{"zzzz", "abcd"} {
 		if base := work.ByName([]string{"V300/init.mp4", "golden_init_video.mp4"}[i]); base != nil {
